@@ -312,9 +312,15 @@ def derive_res(c):
     return Crystal.from_shelx_string(c.to_shelx_string(), titl=c.titl)
 
 
+def derive_supercell(c):
+    # a large P1 crystal (thousands of sites when the parent is big):
+    # code paths that only exist beyond a size threshold
+    return c.as_P1_supercell((2, 1, 1))
+
+
 FORKS = {"deepcopy": fork_deepcopy, "pickle": fork_pickle}
 # derived handles: new crystals computed from a handle (different state allowed)
-DERIVES = {"derive_P1": derive_P1, "derive_cif": derive_cif, "derive_res": derive_res}
+DERIVES = {"derive_P1": derive_P1, "derive_cif": derive_cif, "derive_res": derive_res, "derive_supercell": derive_supercell}
 
 WRITE_FAULT_TARGETS = {"cif": "f.cif", "res": "f.res", "poscar": "POSCAR"}
 
